@@ -204,10 +204,13 @@ fn gen_file(rng: &mut Rng, i: usize, pattern_pool: usize) -> FileRec {
 /// A scan with real data volume: hundreds of files with long names, so that a run emits
 /// 100-400 KiB — thresholds such as a pipe's capacity (64 KiB) or PIPE_BUF are crossed, and
 /// large writes may block (stall) half-way.
-fn volume_workload(rng: &mut Rng, tier: Tier) -> Workload {
+fn volume_workload(rng: &mut Rng, tier: Tier, huge: bool) -> Workload {
     let mut w = workload_inner(rng, tier, true);
-    let n_files = rng.range(300, 1200) as usize;
-    let pad: String = std::iter::repeat("projects/climate/ensemble-0042/member/").take(rng.range(2, 6) as usize).collect();
+    // huge: 1500-3000 files with paths of 2-4 KiB (PATH_MAX is 4 KiB), 3-11 MiB per destination that
+    // prints the path — past in-memory limits of a few MiB that a program may set itself
+    let n_files = if huge { rng.range(1500, 3000) as usize } else { rng.range(300, 1200) as usize };
+    let reps = if huge { rng.range(50, 100) } else { rng.range(2, 6) };
+    let pad: String = std::iter::repeat("projects/climate/ensemble-0042/member/").take(reps as usize).collect();
     w.files = (0..n_files)
         .map(|i| {
             let mut f = gen_file(rng, i, 8);
@@ -228,8 +231,11 @@ fn volume_workload(rng: &mut Rng, tier: Tier) -> Workload {
 }
 
 pub fn workload(rng: &mut Rng, tier: Tier) -> Workload {
+    if rng.chance(1, 2000) {
+        return volume_workload(rng, tier, true);
+    }
     if rng.chance(1, if tier == Tier::Thorough { 250 } else { 400 }) {
-        return volume_workload(rng, tier);
+        return volume_workload(rng, tier, false);
     }
     workload_inner(rng, tier, false)
 }
@@ -1357,7 +1363,7 @@ pub fn check(tier: Tier) -> i32 {
             }
         };
         let doc = json!({
-            "property": ID, "profile": if cfg!(debug_assertions) { "debug" } else { "release" }, "seed": seed, "run_index": index, "class": class, "detail": detail,
+            "property": ID, "profile": coord::build_variant(), "seed": seed, "run_index": index, "class": class, "detail": detail,
             "workload": mw.to_json(), "schedule": ms, "context_switches": switches(&ms), "program": program,
         });
         if let Err(e) = coord::write_json(&path, &doc) {
@@ -1432,7 +1438,7 @@ pub fn check(tier: Tier) -> i32 {
         wall_s: wall,
         evaluations: executions,
         distinct_nontrivial: distinct,
-        rule: "One case = one execution of one generated program (1-14 output actions of every kind over relative/absolute/aliased destinations, framed or plain mode, optional -quit, 0-130 tests in front; probe workloads with -ls/-fls or \\c formats; one workload in 400 is a volume workload of 300-1200 files and 100-400 KiB) on 2-4 scanner threads over 1-8 files (one workload in 12: 5-40 threads over 8-52 files) under one seeded schedule (Random, Sticky or PCT strategy; scheduling points at every lock/unlock, every port operation, every access to an assigned variable or hash table, and between files; displays split into up to 3 chunk writes; ports unbuffered or unsynchronised block-buffered with capacity 8-4096; large writes may stall). The final stream of every destination is compared, as a multiset of frames or lines, with sequential scans of the same program. Non-trivial = the event trace switches between scanner threads at least once. distinct_nontrivial counts distinct (program text, lock/unlock/write/file event trace) pairs among them, i.e. distinct interleavings reached.",
+        rule: "One case = one execution of one generated program (1-14 output actions of every kind over relative/absolute/aliased destinations, framed or plain mode, optional -quit, 0-130 tests in front; probe workloads with -ls/-fls or \\c formats; one workload in 400 is a volume workload of 300-1200 files and 100-400 KiB, one in 2000 a huge one of 1500-3000 files and 3-11 MiB per destination) on 2-4 scanner threads over 1-8 files (one workload in 12: 5-40 threads over 8-52 files) under one seeded schedule (Random, Sticky or PCT strategy; scheduling points at every lock/unlock, every port operation, every access to an assigned variable or hash table, and between files; displays split into up to 3 chunk writes; ports unbuffered or unsynchronised block-buffered with capacity 8-4096; large writes may stall). The final stream of every destination is compared, as a multiset of frames or lines, with sequential scans of the same program. Non-trivial = the event trace switches between scanner threads at least once. distinct_nontrivial counts distinct (program text, lock/unlock/write/file event trace) pairs among them, i.e. distinct interleavings reached.",
         samples: red.samples.clone(),
         extra,
         assumptions: vec![
@@ -1710,6 +1716,17 @@ pub fn selftests() -> Vec<(&'static str, bool, String)> {
         "per-thread slots looked up without the lock, 3 threads: the table never grows, nothing lost",
         &w3,
         wrap_program(&slots(false), "(call-with-relative-path pr)"),
+        None,
+        3000,
+        None,
+    );
+    case(
+        "spin lock built from try-mutex (and a poll on mutex-locked?): ugly but correct; no 'no progress' under priority or sticky schedules",
+        &w3,
+        wrap_program(
+            "(p (current-output-port)) (m (make-mutex)) (pr (lambda (l) (let loop () (if (or (mutex-locked? m) (not (try-mutex m))) (loop))) (display l p) (display #\\x0a p) (unlock-mutex m)))",
+            "(call-with-relative-path pr)",
+        ),
         None,
         3000,
         None,
